@@ -31,7 +31,11 @@ CLAIM = {
             "sgr_face exactly the parameter bytes; FaceModify::apply moves "
             "exactly the flag named like the updated field (injective, complete, Some(true) sets / Some(false) clears), and apply - evaluated on all 192 valid attribute states x 2 colour states for "
             "every single-field modification and all set/clear combinations of the four flags - sets or clears exactly that attribute and "
-            "reset yields the default face; every XAssign operator of FaceAttrs equals `*self = *self X rhs` on all 256x256 raw values; "
+            "reset yields the default face; (APPLY-PRODUCT, 14 instances = reset{0,1} x underline{None, 6 styles}, each 4 colour x 81 flag-update combinations x 4 incoming "
+            "faces) apply equals the SGR reference - reset to the default face first, then colours replaced when Some, the underline style replaced when Some keeping the "
+            "flags of the possibly reset face, each flag set/cleared independently - on EVERY combination of the fields one modification can carry (one ESC[..m is decoded into "
+            "one FaceModify; the library's own Face output is always reset + the rest), on the default face, the all-flags + style + colours face and two complementary "
+            "partial faces; every XAssign operator of FaceAttrs equals `*self = *self X rhs` on all 256x256 raw values; "
             "pack/unpack/underline/From and the bit constants realise the 3-bit-style + flags<<3 layout on all 8-bit values; Char(c) is written verbatim and "
             "(UTF8-LANG, 28 instances: 9 RFC 3629 ABNF rows x 3 decoders + the command automaton) the UTF-8 grammar as built for TTYCommandDecoder, Utf8Decoder "
             "and TTYEventDecoder accepts the encoding of every Unicode scalar value that decoder must read back (command decoder: all but ESC, also accepted by "
@@ -2244,6 +2248,129 @@ def apply_table(ctx, it, ap, asite, bool_fields, flag_bits):
     return ok and cover and not dup
 
 
+# ------------------------------------------------------------------------------------------ (b') apply on the whole product of modifications
+APPLY_PRODUCT_DESC = ("FaceModify::apply equals the SGR reference (reset -> default face first; then fg/bg replaced when Some; underline style replaced when Some, keeping the "
+                      "flags of the possibly reset face; each flag set/cleared independently) on EVERY combination reset{0,1} x fg{None,Some} x bg{None,Some} x "
+                      "underline{None,Some(each style)} x each flag update{None,Some(true),Some(false)} x 4 incoming faces (default; all flags + style + colours; two "
+                      "complementary partial faces): the fields of one modification do not interfere (a reset is not undone by another parameter of the same sequence)")
+APPLY_PRODUCT_FLOOR = 14      # 2 (reset) x 7 (underline: None + 6 styles) slices, each = 4 (colours) x 81 (flag updates) x 4 (incoming faces) evaluations
+
+
+def apply_product(ctx, it, ap, asite, fm_fields, bool_fields, styles, flag_bits, flag_names):
+    """APPLY-PRODUCT: one SGR sequence is decoded into ONE FaceModify that may carry reset, colours, an underline style and flag updates at once
+    (the library's own Face output is always `ESC[0;..m`, i.e. reset + everything else), so `apply` must be right on combinations, not only on
+    single fields.  The whole finite product is evaluated against a reference model written here; the smallest disagreeing combination is reported."""
+    ctx.rule("APPLY-PRODUCT", APPLY_PRODUCT_DESC, floor=APPLY_PRODUCT_FLOOR)
+    ca, cb, cn1, cn2 = ("RGBA", 1, 2, 3, 255), ("RGBA", 4, 5, 6, 255), ("RGBA", 7, 8, 9, 255), ("RGBA", 10, 11, 12, 255)
+    fbit = {bf: flag_bits.get(bf.upper(), 0) >> 3 for bf in bool_fields}
+    allf = 0
+    for n in flag_names:
+        allf |= flag_bits[n] >> 3
+    order = sorted(flag_bits[n] >> 3 for n in flag_names)
+    odd = 0
+    for j, b in enumerate(order):
+        if j % 2 == 0:
+            odd |= b
+    ns = len(styles)
+    faces = [(NONE, NONE, 0, 0),
+             (some(ca), some(cb), ns // 2, allf),
+             (some(ca), NONE, ns - 1, odd),
+             (NONE, some(cb), 0, allf & ~odd)]
+    opt3 = (None, True, False)
+
+    def flag_updates(k):
+        if k == 0:
+            yield ()
+            return
+        for rest in flag_updates(k - 1):
+            for v in opt3:
+                yield rest + (v,)
+    mods = []
+    for reset in (False, True):
+        for fg in (False, True):
+            for bg in (False, True):
+                for u in [None] + list(range(ns)):
+                    for fu in flag_updates(len(bool_fields)):
+                        active = (["reset"] if reset else []) + (["fg"] if fg else []) + (["bg"] if bg else []) + (["underline"] if u is not None else []) + \
+                                 [bf for bf, v in zip(bool_fields, fu) if v is not None]
+                        mods.append((len(active), len(mods), active, reset, fg, bg, u, fu))
+    mods.sort(key=lambda m: (m[0], m[1]))          # smallest combinations first: the first disagreement per component is a minimal one
+
+    def want_of(reset, fg, bg, u, fu, face):
+        wfg, wbg, wu, wfl = (NONE, NONE, 0, 0) if reset else face
+        if fg:
+            wfg = some(cn1)
+        if bg:
+            wbg = some(cn2)
+        if u is not None:
+            wu = u
+        for bf, v in zip(bool_fields, fu):
+            if v is True:
+                wfl |= fbit[bf]
+            elif v is False:
+                wfl &= ~fbit[bf]
+        return (wfg, wbg, wu, wfl)
+
+    def face_txt(s):
+        return "{fg=%s, bg=%s, underline=%s, flags=%s}" % ("-" if s[0] == NONE else "c%d" % s[0][1][1] if isinstance(s[0], tuple) and isinstance(s[0][1], tuple) else "set",
+                                                          "-" if s[1] == NONE else "c%d" % s[1][1][1] if isinstance(s[1], tuple) and isinstance(s[1][1], tuple) else "set",
+                                                          styles[s[2]] if s[2] < ns else s[2],
+                                                          "+".join(n.lower() for n in flag_names if s[3] & (flag_bits[n] >> 3)) or "-")
+    comps = ("fg", "bg", "underline", "flags")
+    first_bad = {}
+    slices = {}
+    evals = 0
+    try:
+        for _n, _i, active, reset, fg, bg, u, fu in mods:
+            for face in faces:
+                m = it.default_of("FaceModify")
+                m.fields["reset"] = reset
+                if fg:
+                    m.fields["fg"] = some(cn1)
+                if bg:
+                    m.fields["bg"] = some(cn2)
+                if u is not None:
+                    m.fields["underline"] = some(EnumV("UnderlineStyle", styles[u]))
+                for bf, v in zip(bool_fields, fu):
+                    if v is not None:
+                        m.fields[bf] = some(v)
+                fv = StructV("Face", {"fg": face[0], "bg": face[1], "attrs": StructV("FaceAttrs", {"bits": face[2] | (face[3] << 3)})})
+                r = it.call_item(ap[1], "FaceModify", [m, fv], ap[0], memo=False)
+                if not (isinstance(r, StructV) and isinstance(r.fields.get("attrs"), StructV)):
+                    raise Unsupported("apply does not return a Face value: %s" % (r,))
+                bits = r.fields["attrs"].fields["bits"]
+                got = (r.fields["fg"], r.fields["bg"], bits & 7, bits >> 3)
+                want = want_of(reset, fg, bg, u, fu, face)
+                evals += 1
+                sl = slices.setdefault((reset, u), [0, 0])
+                sl[0] += 1
+                if got != want:
+                    sl[1] += 1
+                    for ci, c in enumerate(comps):
+                        if got[ci] != want[ci] and c not in first_bad:
+                            first_bad[c] = (active, mod_desc(reset, fg, bg, u, fu, bool_fields, styles), face, got, want)
+    except Unsupported as ex:
+        ctx.anchor("APPLY-PRODUCT", "apply-not-evaluable", "FaceModify::apply not evaluable on a combined modification: %s" % ex)
+        return False
+    for (reset, u), (n, nbad) in sorted(slices.items(), key=lambda kv: (kv[0][0], -1 if kv[0][1] is None else kv[0][1])):
+        ctx.instance("APPLY-PRODUCT", {"reset": reset, "underline": "None" if u is None else "Some(%s)" % styles[u], "evaluations": n, "disagreeing": nbad})
+    for c in comps:
+        if c not in first_bad:
+            continue
+        active, desc, face, got, want = first_bad[c]
+        ctx.violation("APPLY-PRODUCT", "FaceModify::apply", "%s:%s" % ("+".join(active) or "identity", c),
+                      "FaceModify{%s}.apply(%s) = %s, SGR semantics require %s: the %s of the result is wrong when these fields of one modification are combined "
+                      "(smallest disagreeing combination of %d evaluated)" % (desc, face_txt(face), face_txt(got), face_txt(want), c, evals), sites=asite,
+                      detail={"modification": desc, "start": face_txt(face), "got": face_txt(got), "want": face_txt(want)})
+    return not first_bad
+
+
+def mod_desc(reset, fg, bg, u, fu, bool_fields, styles):
+    parts = (["reset: true"] if reset else []) + (["fg: Some(c7)"] if fg else []) + (["bg: Some(c10)"] if bg else []) + \
+            (["underline: Some(%s)" % styles[u]] if u is not None else []) + ["%s: Some(%s)" % (bf, str(v).lower()) for bf, v in zip(bool_fields, fu) if v is not None]
+    return ", ".join(parts) or "(default)"
+
+
 # ------------------------------------------------------------------------------------------ run
 def run(ctx):
     src = ctx.src
@@ -2254,7 +2381,9 @@ def run(ctx):
         "mode as one ESC [ .. m sequence whose parameters sgr_face reads back as the same record, alone, in pairs (a colour followed by another parameter, reset first, "
         "parameters joined by ';') and all at once; on two consecutive parameters the decoder lets the later one override and a reset discard; components above 255 give "
         "no colour; GraphicRenditionMatcher::decode hands sgr_face the parameter bytes; (b) FaceModify::apply moves exactly the flag named like the updated field and "
-        "is evaluated for every single-field modification on all 192 valid attribute states x 2 colour states against SGR set/clear semantics; (c) each XAssign "
+        "is evaluated for every single-field modification on all 192 valid attribute states x 2 colour states against SGR set/clear semantics, and (APPLY-PRODUCT) on the "
+        "whole product reset x fg x bg x underline{None, each style} x 3^4 flag updates x 4 incoming faces (default, all flags + style + colours, two complementary partial "
+        "faces) against a reference model: reset first, then colours, the style keeping the flags of the possibly reset face, flags independently; (c) each XAssign "
         "impl of FaceAttrs equals `*self = *self X rhs` on all 256x256 raw values; (d) pack/unpack/underline/constants bit layout over all 8-bit "
         "values; (e) Char(c) is written verbatim and the as-built UTF-8 grammar of the command decoder (all characters except ESC, also in the whole command "
         "automaton), of Utf8Decoder (all) and of the event decoder (printable ASCII + multi-byte) contains every RFC 3629 well-formed sequence, row by row "
@@ -2500,8 +2629,14 @@ def run(ctx):
             ctx.note("APPLY-SEMANTICS: combined flag modifications not evaluated because a single-flag row already fails")
         if "underline_color" in fm_fields:
             ctx.note("FaceModify.underline_color has no counterpart in Face (apply has a TODO): nothing to decide for apply; the encoder/decoder tables cover it")
+        finite_ok = apply_product(ctx, it, ap, asite, fm_fields, bool_fields, styles, flag_bits, flag_names) and finite_ok
     else:
         ctx.note("APPLY-SEMANTICS not evaluated: bit layout or anchors failed")
+        ctx.rule("APPLY-PRODUCT", APPLY_PRODUCT_DESC, floor=APPLY_PRODUCT_FLOOR)
+        if ap is None or st is None:
+            ctx.anchor("APPLY-PRODUCT", "FaceModify::apply")
+        else:
+            ctx.note("APPLY-PRODUCT not evaluated: the bit layout of FaceAttrs is already reported (BIT-LAYOUT); the product reads results through it")
         finite_ok = False
     ctx.extra["evaluator_steps"] = it.steps
 
